@@ -9,10 +9,14 @@ CHECKS = {
    text="Machine-checked proof (Coq 8.16.1) about a Gallina model of HTTPFile that follows "
         "get_cache_chunk/read_range_cached/read/seek/tell line by line: for every resource, chunk size > 0, "
         "keep_chunks >= 1, every behaviour of the server on invalid ranges and every history of "
-        "seek/tell/read the outputs equal those of a plain in-memory file, and the cache never exceeds "
-        "keep_chunks (induction over the history with a cache invariant). The model is tied to the code on "
-        "every run by running both on the same random histories (vm_compute vs. the real class over a fake "
-        "session) and a BytesIO oracle; RTDC_HTTP vs RTDC_HDF5 over a loopback range server.",
+        "seek/tell/read the outputs equal those of a plain in-memory file, for EVERY eviction policy meeting "
+        "a four-clause specification (the code's policy is proved to be one); between operations the cache "
+        "never exceeds keep_chunks and at any instant keep_chunks + 1 (attained); any adaptive client (h5py) "
+        "sees the transcript of a plain file (induction over histories / client steps with a cache "
+        "invariant). The model is tied to the code on every run by running both on the same random "
+        "histories (vm_compute vs. the real HTTPFile/S3File over a fake session, four server behaviours) "
+        "with a BytesIO oracle, by replaying the operations h5py issues on generated .rtdc files through "
+        "the model, and RTDC_HTTP vs RTDC_HDF5 over loopback range servers with small chunk geometry.",
    note="Trusted: Coq kernel+vm_compute; hand-written model tied by differential testing only; server oracle "
         "(exact bytes for satisfiable ranges); h5py as a function of the bytes read; positions non-negative.",
    technique="Coq proof by induction over operation histories (cache invariant) + model/implementation correspondence by vm_compute",
